@@ -166,10 +166,11 @@ func c07Units(tier string, seed int64) []Unit {
 		}
 	}
 	// the same fixed seed in two other processes: the whole run is identical across processes too
-	units = append(units, Unit{Name: "C07/cross-process-determinism", Run: func(c *Ctx) {
-		self, _ := os.Executable()
-		for pi := range progs {
-			for _, sd := range []uint64{uint64(seed)*1009 + 5, 0xdeadbeefcafebabe} {
+	for pi := range progs {
+		for _, sd := range []uint64{uint64(seed)*1009 + 5, 0xdeadbeefcafebabe} {
+			pi, sd := pi, sd
+			units = append(units, Unit{Name: fmt.Sprintf("C07/cross-process-determinism/prog=%d/seed=%d", pi, sd), Run: func(c *Ctx) {
+				self, _ := os.Executable()
 				want := SeedRunTranscript(pi, sd)
 				for k := 0; k < 2; k++ {
 					out, err := exec.Command(self, "seedrun", fmt.Sprint(pi), fmt.Sprint(sd)).Output()
@@ -186,9 +187,9 @@ func c07Units(tier string, seed int64) []Unit {
 							Replay: map[string]any{"program": pi, "seed": sd}})
 					}
 				}
-			}
+			}})
 		}
-	}})
+	}
 	return units
 }
 
